@@ -26,8 +26,8 @@ CHECKS = {
  "C10": ("5.10", "Exhaustive enumeration of all expression trees up to 4 (thorough 5) nodes plus random trees: simplify / flatten compared with the original by exact evaluation at all small well-sorted assignments, idempotence, surviving divisions; generated twin models with re-spelled constants must be accepted alike and denote the same feasible set and objective.",
          "Trusted: exact reference evaluator; assignments are restricted to the documented domain of the logic operators (0/1 operands); constant folding inside rooc is compared with 1e-12 relative tolerance.",
          "exhaustive enumeration + property-based testing: metamorphic (rewrite / re-spelling must not change meaning)"),
- "C11": ("5.11", "Generated full source texts (random spelling, where-constants, comments, all declaration forms), untyped operator trees, the exhaustive depth-2 nesting table and literal programs with iterations/graphs/escaped names: format() must succeed, re-parse, be idempotent and transform to the same Model.",
-         "Trusted: JSON comparison of rooc's own Model (spans stripped); data-driven constructs are covered by literal programs and C06's generator, not by the random grammar.",
+ "C11": ("5.11", "Generated full source texts (random spelling, where-constants, comments, all declaration forms), untyped operator trees, the exhaustive depth-2 nesting table, literal programs with iterations/graphs/escaped names/every builtin, and C06's data-driven generator (driven and unrolled texts, computed subscripts): format() must succeed, re-parse, be idempotent and transform to the same Model.",
+         "Trusted: JSON comparison of rooc's own Model (spans stripped).",
          "property-based testing: round trip (format then parse) + idempotence"),
  "C12": ("5.12", "Compiled models from the generators (non-affine operators, named rows, tightened/infinite domains, coefficients 1e-9..1e9): Model::to_string() and LinearModel::to_string() must parse, type-check and re-compile to the same linear model; render/compile/render must be a fixpoint. Differences are classified as the recorded known finding only when an exact MILP oracle proves both models equivalent.",
          "Trusted: exact MILP oracle for the equivalence classification; comparison is modulo trivially-true constant rows, duplicate rows and declared-but-unused variables (stated reading, DESIGN.md section 10); restricted to models as the text front-end produces them.",
@@ -47,22 +47,22 @@ CHECKS = {
  "C20": ("5.20", "Generated small LPs kept when the exact oracle certifies the optimal value differentiable in every right-hand side; Clarabel's shadow prices (function and builder doors) must equal the exact slopes obtained by re-solving with perturbed right-hand sides.",
          "Trusted: exact LP oracle for the slopes; 1e-5 relative tolerance on the interior-point duals; degenerate cases are skipped and counted.",
          "property-based testing: generated LPs + exact perturbation (metamorphic) oracle"),
- "C16": ("5.16", "One generated model realised through ModelBuilder (operators, helpers, permuted call order, unused variable), source text (constants inline / where / API), PipeRunner and RoocSolver: linear models identical, verdicts and optimal values equal, builder read-back (var_value, numeric_value, eval, value) equals the reference semantics; the constraint!/expr! macros are covered by a generated table of all 590 operator sequences of up to 3 operators compared with the reference parser.",
+ "C16": ("5.16", "One generated model realised through ModelBuilder (operators, helpers, permuted call order, unused variable), source text (constants inline / where / API), PipeRunner and RoocSolver: linear models identical, verdicts and optimal values equal, builder read-back (var_value, numeric_value, eval, value) equals the reference semantics; the builder expression is assembled through the most specific operator overload for every operand shape (Var / Expr / f64 / i32 / bool on either side, by value or reference); the constraint!/expr! macros are covered by a generated table of all 590 operator sequences of up to 3 operators compared with the reference parser.",
          "Trusted: reference evaluator and parser; macros are covered by enumeration at build time, not by run-time generation.",
          "property-based testing: differential between entry points + enumerated macro table"),
  "C07": ("5.7", "Generated models (incl. propagation chains, cycles exhausting the step limit, contradictions, inexact coefficients); derived and published ranges must contain every source-feasible test point, derived enclosures must contain exact expression values at box points.",
          "Trusted: reference evaluator; hook verif_hooks::analyze_bounds is a read-only wrapper; containment uses a 1e-9 relative allowance (stated weakening).",
          "property-based testing: generated models + exact evaluation against derived intervals (via read-only hook)"),
- "C08": ("5.8", "Generated models with edge features (aux-like names, duplicate / suffix-like constraint names, infinite constants, unused declarations); every compiled model checked against the well-formedness invariant list, MissingFiniteBounds errors checked for content.",
+ "C08": ("5.8", "Generated models with edge features (aux-like names, duplicate / suffix-like constraint names, infinite constants, unused declarations); every compiled model checked against the well-formedness invariant list, MissingFiniteBounds errors checked for content, and a non-finite-number rejection of a source without infinite constants counted as a missing bound turned into a constant.",
          "Trusted: invariant checker written from the property text; guessed big-M constants are caught by C01's far test points (2^21, 2^34).",
          "property-based testing: generated edge-case models + invariant checking"),
- "C06": ("5.6", "Generated data-driven programs (sums/products/min/max over ranges, arrays, matrices, graphs, enumerate, tuple destructuring, indexed declarations, nested iterations) paired with the harness's own unrolled version; both must compile to the same linear model with the expected instance names.",
+ "C06": ("5.6", "Generated data-driven programs (sums/products/min/max/avg/any/all over ranges, arrays, matrices, graphs, enumerate, zip, set functions, tuple destructuring, indexed declarations, nested and dependent iterations, ranges that start empty under sum and prod, computed subscripts) paired with the harness's own unrolled version; both must compile to the same linear model with the expected instance names.",
          "Trusted: the harness's reference unroller (written from the documentation); comparison of rooc's own LinearModel values.",
          "property-based testing: differential against a reference unrolling of data-driven constructs"),
- "C18": ("5.18", "Inputs up to 4 KiB from grammar-derived programs, token mutations of them (numeric extremes in literal, index and range positions, deep nesting, deletions, duplications, swaps), byte noise and bracket soup are run through every public stage and every error rendering inside a worker process with an address-space limit and a watchdog; a panic, an abort, a stack overflow or silence is a violation.",
+ "C18": ("5.18", "Inputs up to 4 KiB from grammar-derived programs, token mutations of them (numeric extremes in literal, index and range positions, depth-64 nesting of every bracket kind closed / half closed / unclosed, deletions, duplications, swaps), byte noise and bracket soup are run through every public stage and every error rendering inside a worker process with an address-space limit and a watchdog; a panic, an abort, a stack overflow or silence is a violation. Thorough adds a coverage-guided libFuzzer campaign (cargo-fuzz target over the same stage runner, seed corpus of 132 programs) whose crashes and timeouts become replay files.",
          "Trusted: termination is judged against a 20 s budget; rooc is built with overflow checks; two recorded findings are recognised through the guarded range observer at the call site that writes ranges out.",
-         "property-based testing / fuzzing: generated and mutated inputs in a sandboxed worker, crash and hang oracle"),
- "C19": ("5.19", "Generated well-typed programs and single type-breaking mutations of them: what type_check accepts must transform without a type-kind error, and what it rejects is checked to be rejected by transform or to be a genuine static error.",
+         "property-based testing + coverage-guided fuzzing (libFuzzer): generated and mutated inputs in a sandboxed worker, crash and hang oracle"),
+ "C19": ("5.19", "Generated well-typed programs and up to three type-breaking mutations of them (operands, indexes, bounds, iterators and arguments replaced by values of every kind; every builtin under both spellings with 0-3 arguments of every kind; sign, negation and logic over every kind; wider destructuring patterns): whatever type_check accepts must transform without a type-class error.",
          "Trusted: the classification of transform errors into type-kind errors and data errors (written from the error enum).",
          "property-based testing: generated programs + mutation, checker/transformer agreement"),
 }
@@ -100,6 +100,7 @@ def main():
         },
         "engines": [
             {"name": "rv", "path": "/verif/harness", "serves_properties": sorted(CHECKS), "kind_free_text": "Rust binary: proptest strategies driven by a seeded 16-thread runner, exact rational oracles, shrinking, replay files, known-findings matcher"},
+            {"name": "fuzz-total", "path": "/verif/fuzz", "serves_properties": ["C18"], "kind_free_text": "cargo-fuzz / libFuzzer target over harness/src/props/stages.rs (all compiler stages + error rendering), range guard through the verif_hooks range observer, run by ./check C18 thorough via fuzz/run.sh"},
         ],
         "checks": checks,
         "not_applicable": na,
